@@ -26,9 +26,13 @@ type c07Node struct {
 	sel   *isaac.BaseProposalSelector
 	down  bool
 	slow  time.Duration
+	fresh bool // a Select call has begun and has not selected a proposer yet
 }
 
 type c07Choice struct {
+	first   bool // the first proposer selection of a Select call (before any node has been filtered out)
+	dup     bool // the candidate list named a node twice
+	foreign bool // the candidate list named a non-member
 	node    int
 	point   base.Point
 	prev    string
@@ -120,9 +124,29 @@ func c07Run(r *simkit.Run) {
 			var names []string
 
 			member := false
+			seen := map[string]bool{}
+			dup, foreign := false, false
 
 			for _, c := range cands {
-				names = append(names, c.Address().String())
+				a := c.Address().String()
+				names = append(names, a)
+
+				if seen[a] {
+					dup = true
+				}
+
+				seen[a] = true
+
+				isMember := false
+				for _, m := range members {
+					if m.Address().Equal(c.Address()) {
+						isMember = true
+					}
+				}
+
+				if !isMember {
+					foreign = true
+				}
 
 				if c.Address().Equal(chosen.Address()) {
 					member = true
@@ -130,7 +154,10 @@ func c07Run(r *simkit.Run) {
 			}
 
 			sort.Strings(names)
-			choices = append(choices, c07Choice{node: n.i, point: point, prev: prev.String(), cands: strings.Join(names, ","), chosen: chosen.Address().String(), member: member})
+
+			first := n.fresh
+			n.fresh = false
+			choices = append(choices, c07Choice{first: first, dup: dup, foreign: foreign, node: n.i, point: point, prev: prev.String(), cands: strings.Join(names, ","), chosen: chosen.Address().String(), member: member})
 
 			return chosen, nil
 		}
@@ -192,6 +219,7 @@ func c07Run(r *simkit.Run) {
 		r.Go(fmt.Sprintf("node%d", n.i), func() {
 			for _, pt := range points {
 				// concurrent Select calls on one node too
+				n.fresh = true
 				pr, err := n.sel.Select(context.Background(), pt, lastHash, time.Second)
 				r.Event(fmt.Sprintf("node%d select %s -> err=%v", n.i, pt, err != nil))
 
@@ -214,11 +242,29 @@ func c07Run(r *simkit.Run) {
 	// same (point, previous block, candidate set) => same proposer, a member of that set
 	byKey := map[string]c07Choice{}
 
+	var mnames []string
+	for _, m := range members {
+		mnames = append(mnames, m.Address().String())
+	}
+
+	sort.Strings(mnames)
+	allMembers := strings.Join(mnames, ",")
+
 	for _, c := range choices {
 		r.Checked()
 
 		if !c.member {
 			r.Fail("proposer-not-a-member", "not-member", "node%d chose %s for %s, who is not among the candidates [%s]", c.node, c.chosen, c.point, c.cands)
+		}
+
+		// the candidates are the suffrage of the height, less the nodes found dead in this Select call: never a
+		// node twice, never a non-member, and all of the suffrage when the call selects its first proposer
+		if c.dup || c.foreign {
+			r.Fail("candidates-not-the-suffrage", "duplicate-or-foreign", "node%d selected the proposer of %s among [%s], which is not a set of suffrage members", c.node, c.point, c.cands)
+		}
+
+		if c.first && c.cands != allMembers {
+			r.Fail("candidates-not-the-suffrage", "first-selection-not-over-the-suffrage", "node%d began selecting for %s among [%s]; the suffrage is [%s]", c.node, c.point, c.cands, allMembers)
 		}
 
 		key := c.point.String() + "/" + c.prev + "/" + c.cands
@@ -235,11 +281,11 @@ func c07Run(r *simkit.Run) {
 
 func init() {
 	simkit.Register(&simkit.Harness{
-		ID:   "C07",
-		Run:  c07Run,
-		Real: []string{"isaac.BaseProposalSelector (Select, getNodes sort, filterDeadNodes, proposalFromOthers)", "isaac.BlockBasedProposerSelector", "isaac.ProposalMaker", "isaacdatabase.TempPool"},
-		Stub: []string{"transport between nodes: RequestFunc calls the proposer's maker directly, or fails / is slow", "members without a process are unreachable"},
-		Rule: "each run draws a suffrage of 1-12 members (thorough up to 64) presented to each of 1-4 live nodes in its own permutation, 1-3 points, and proposers that are unreachable or slower than the request timeout (driving the dead-node filtering and the fall-back to other proposers on the fake clock); every call of the proposer-selection function is recorded. For equal (point, previous block, candidate set) every node must choose the same proposer, always a member of the candidate set. distinct = event-log hash",
+		ID:          "C07",
+		Run:         c07Run,
+		Real:        []string{"isaac.BaseProposalSelector (Select, getNodes sort, filterDeadNodes, proposalFromOthers)", "isaac.BlockBasedProposerSelector", "isaac.ProposalMaker", "isaacdatabase.TempPool"},
+		Stub:        []string{"transport between nodes: RequestFunc calls the proposer's maker directly, or fails / is slow", "members without a process are unreachable"},
+		Rule:        "each run draws a suffrage of 1-12 members (thorough up to 64) presented to each of 1-4 live nodes in its own permutation, 1-3 points, and proposers that are unreachable or slower than the request timeout (driving the dead-node filtering and the fall-back to other proposers on the fake clock); every call of the proposer-selection function is recorded. For equal (point, previous block, candidate set) every node must choose the same proposer, always a member of the candidate set. distinct = event-log hash",
 		Assumptions: []string{"the suffrage slice is handed to each node as its own copy"},
 	})
 }
